@@ -341,6 +341,56 @@ impl<Key: Hash + Eq + Clone> Limiter<Key> {
     }
 }
 
+#[cfg(feature = "verif-hooks")]
+impl Quota {
+    /// Verification hook: a quota of `max_tokens` every `replenish_all_every` (fields are private).
+    pub fn verif_new(replenish_all_every: Duration, max_tokens: u64) -> Self {
+        Quota {
+            replenish_all_every,
+            max_tokens,
+        }
+    }
+}
+
+#[cfg(feature = "verif-hooks")]
+impl<Key: Hash + Eq + Clone> Limiter<Key> {
+    /// Verification hook: `(tau, t, tat_per_key)`. Read-only.
+    pub fn verif_state(&self) -> (u64, u64, Vec<(Key, u64)>) {
+        (
+            self.tau,
+            self.t,
+            self.tat_per_key
+                .iter()
+                .map(|(k, v)| (k.clone(), *v))
+                .collect(),
+        )
+    }
+}
+
+#[cfg(feature = "verif-hooks")]
+impl RateLimiter {
+    /// Verification hook: the origin of this limiter's clock. Read-only.
+    pub fn verif_init_time(&self) -> Instant {
+        self.init_time
+    }
+
+    /// Verification hook: the states of the total, per-node and per-IP limiters. Read-only.
+    #[allow(clippy::type_complexity)]
+    pub fn verif_state(
+        &self,
+    ) -> (
+        (u64, u64, Vec<((), u64)>),
+        Option<(u64, u64, Vec<(NodeId, u64)>)>,
+        Option<(u64, u64, Vec<(IpAddr, u64)>)>,
+    ) {
+        (
+            self.total_rl.verif_state(),
+            self.node_rl.as_ref().map(|l| l.verif_state()),
+            self.ip_rl.as_ref().map(|l| l.verif_state()),
+        )
+    }
+}
+
 #[cfg(test)]
 mod tests {
     use super::{Limiter, Quota};
